@@ -225,6 +225,10 @@ def labels(tier, seed):
     yield 'X'
     for degenerate in ('', ' ', ':', '/', '()', 'C:', 'C/', 'C:()', ':maj', '\n'):
         yield degenerate
+    # characters that are special to str.format / % / regular expressions / the label syntax itself (the rejection message embeds the string)
+    for odd in ('{C', 'C}', 'C:{maj}', 'C{}', 'C:maj{0}', '{chord_label}', '{', '}', '%s', 'C:%d', 'C:maj%', '\\', 'C\\', '[C]', 'C:maj|min', 'C:(3', 'C:3)', 'C:maj/',
+                'C:maj//3', 'C::maj', 'C:maj(3)(5)', '\x00', 'C\x00', 'c:maj', 'H:maj', 'C:maj ', ' C:maj', 'C:maj\n', 'N:maj', 'X/3', 'N/1', 'C:(*)', 'C:(,)', 'C:maj(3,)', 'é', 'C:maj/é'):
+        yield odd
     for root in roots_all:
         for sh in shorts:
             yield mk(root, sh, None, None)
@@ -251,7 +255,7 @@ def labels(tier, seed):
 
 def mutate(s, rng):
     ops = rng.randint(1, 2)
-    alphabet = 'ABCDEFGNXb#:/(),*0123456789majinsudgh \n'
+    alphabet = 'ABCDEFGNXb#:/(),*0123456789majinsudgh \n{}%\\'
     for _ in range(ops):
         k = rng.randint(0, len(s))
         c = rng.choice([0, 1, 2])
